@@ -22,6 +22,33 @@ Theorem C16_rearrangement : forall n px px', Permutation px px' -> do_mean OpsR 
 Proof. exact do_mean_perm. Qed.
 Print Assumptions C16_rearrangement.
 
+(** zones are isolated: zone k's mean and count depend on the cells whose zone id is k and on nothing else *)
+Theorem C16_zone_isolated : forall k px px',
+  filter (in_zone k) px = filter (in_zone k) px' -> zone_mean OpsR k px = zone_mean OpsR k px'.
+Proof. exact zone_isolated. Qed.
+Print Assumptions C16_zone_isolated.
+
+(** a mean is never outside the range of the pixels it averages *)
+Theorem C16_mean_within_range : forall k px lo hi m c,
+  Forall (fun x => lo <= x <= hi) (members k px) -> zone_mean OpsR k px = (Some m, c) -> lo <= m <= hi.
+Proof. exact zone_mean_bounds. Qed.
+Print Assumptions C16_mean_within_range.
+
+(** the counts partition the valid pixels with an in-range zone id: none lost, none counted twice *)
+Theorem C16_counts_partition : forall lo n px, count_sum lo n px = in_range_count lo n px.
+Proof. exact counts_partition. Qed.
+Print Assumptions C16_counts_partition.
+
+Theorem C16_count_column : forall n px,
+  map snd (do_mean OpsR n px) = map (fun k => INR (length (members (Z.of_nat k) px))) (seq 0 n).
+Proof. exact do_mean_counts. Qed.
+Print Assumptions C16_count_column.
+
+Example C16_partition_example :
+  let px := [(Some 1, Some 0%Z); (Some 2, Some 1%Z); (None, Some 1%Z); (Some 3, Some 1%Z); (Some 9, None); (Some 4, Some 7%Z)] in
+  (count_sum 0 3 px, in_range_count 0 3 px) = (3, 3)%nat.
+Proof. reflexivity. Qed.
+
 Example C16_example :
   map (fun k => length (members k [(Some 1, Some 0%Z); (Some 2, Some 1%Z); (None, Some 1%Z); (Some 3, Some 1%Z); (Some 9, None)])) [0%Z; 1%Z; 2%Z]
   = [1; 2; 0]%nat.
